@@ -26,6 +26,32 @@ func coldProbes() map[string]func() string {
 			}
 			return ""
 		},
+		// the locked random source and the default generators run in a child of their own: a lock
+		// that is unlocked twice ends the process, one that is never released ends nothing
+		"LockRandSource+String": func() string {
+			src := randz.NewLockRandSource(7)
+			for i := 0; i < 3; i++ {
+				if v := src.Int63(); v < 0 {
+					return fmt.Sprintf("LockRandSource.Int63() = %d", v)
+				}
+				src.Seed(int64(i))
+			}
+			g := randz.NewStrGenerator("abc", src)
+			for _, n := range []int{0, 1, 30} {
+				if out := g.Generate(n); len(out) != n {
+					return fmt.Sprintf("Generate(%d) over a LockRandSource returned %q", n, out)
+				}
+			}
+			for _, n := range []int{0, 1, 30} {
+				if out := randz.String(n); len(out) != n {
+					return fmt.Sprintf("String(%d) returned %q", n, out)
+				}
+			}
+			if id := randz.Id(); id < 0 {
+				return fmt.Sprintf("Id() = %d", id)
+			}
+			return ""
+		},
 		"CountGenerator": func() string {
 			var g randz.CountGenerator
 			g.AddRule(3, 1, 1, 2)
